@@ -50,6 +50,12 @@ def findWire : Except FindErr Path → String
   | .error (.unknownSource n) => "err unknown " ++ charsToHex n
   | .error (.notFound p) => "err notfound " ++ pathWire p
 
+def mode? (kind folder map : String) : Option Mode :=
+  match kind, hexToChars? folder, list? entry? map with
+  | "path", some folder, some map => some (.path ⟨folder, map, none⟩)
+  | "luau", some _, some map => some (.luau ⟨map, none⟩)
+  | _, _, _ => none
+
 def handle (op : String) (args : List String) : String :=
   match op, args with
   | "comps", [p] =>
@@ -64,6 +70,31 @@ def handle (op : String) (args : List String) : String :=
     match bool? k, path? p with
     | some k, some p => toString (H15 k p)
     | _, _ => "bad-args"
+  | "genp", [folder, sources, proj, found, current] =>
+    match hexToChars? folder, list? entry? sources, path? proj, path? found, path? current with
+    | some folder, some sources, some proj, some found, some current =>
+      charsToHex (generateRequirePath ⟨folder, sources, none⟩ proj found current)
+    | _, _, _, _, _ => "bad-args"
+  | "genl", [aliases, proj, found, current] =>
+    match list? entry? aliases, path? proj, path? found, path? current with
+    | some aliases, some proj, some found, some current =>
+      charsToHex (generateRequireLuau ⟨aliases, none⟩ proj found current)
+    | _, _, _, _ => "bad-args"
+  | "conv", [cur, curFolder, curMap, tgt, tgtFolder, tgtMap, proj, fs, source, req] =>
+    match mode? cur curFolder curMap, mode? tgt tgtFolder tgtMap, path? proj, list? path? fs, path? source, path? req with
+    | some c, some t, some proj, some fs, some source, some req =>
+      match convertRequire c t proj (memIsFile fs) req source with
+      | none => "none"
+      | some arg =>
+        "arg " ++ charsToHex arg ++ " found " ++ findWire (c.findCall proj (memIsFile fs) req source) ++
+          " hconv " ++ (match c.findCall proj (memIsFile fs) req source with
+            | .ok f => toString (HConv f) | .error _ => "-") ++
+          " again " ++ findWire (t.findCall proj (memIsFile fs) (components arg) source)
+    | _, _, _, _, _, _ => "bad-args"
+  | "HA", [p] =>
+    match path? p with
+    | some p => toString (HA p)
+    | none => "bad-args"
   | "cands", [p, folder] =>
     match path? p, hexToChars? folder with
     | some p, some folder => ";".intercalate ((findRequirePaths p folder).map pathWire)
